@@ -265,6 +265,7 @@ FnHeader(v) ==
    nlab |-> v[e + 3 + nl], placed |-> 0, style |-> v[e + 4 + nl], insns |-> <<>>, free |-> 0]
 
 (* ------------------------------------------------------------------ operand builder *)
+Default(D) == {CHOOSE x \in D : TRUE}
 MemTypes(c) == CASE c = "i" -> TSel(IntTypes) [] c \in FpTypes -> {c} [] c = "pvar" -> {"i64", "u8"} [] c = "valist" -> {"i64"} [] c = "vamem" -> TSel(ScalarTypes)
 Forms(cl) ==
   LET c == cl.c IN
@@ -287,6 +288,7 @@ OpFields(form) ==
     [] form = "mem" -> <<"mty", "disp", "base", "index", "scale", "alias", "nonalias">>
     [] form = "memundef" -> <<"disp", "base1">> [] form = "blkmem" -> <<"base">>
     [] form = "ref" -> <<"refname">> [] form = "protoref" -> <<>> [] form = "str" -> <<"bytes">> [] form = "lab" -> <<"labn">>
+AddrRegs == IF Grid = "full" \/ FnRegs("i") = {} THEN FnRegs("i") ELSE Default(FnRegs("i"))      \* registers used in addresses
 RegClass(cl) == IF cl.c \in FpTypes THEN FnRegs(cl.c) ELSE IF cl.c = "anyreg" THEN AnyRegs ELSE FnRegs("i")
 OpDom(cl, form, f, v) ==
   CASE f = "reg" -> RegClass(cl)
@@ -294,9 +296,9 @@ OpDom(cl, form, f, v) ==
     [] f = "fp" -> (IF cl.c = "f" THEN FG ELSE IF cl.c = "ld" THEN LG ELSE DG)
     [] f = "mty" -> MemTypes(cl.c)
     [] f = "disp" -> DispG
-    [] f = "base" -> {""} \cup FnRegs("i")
-    [] f = "base1" -> FnRegs("i")
-    [] f = "index" -> {""} \cup FnRegs("i")
+    [] f = "base" -> {""} \cup AddrRegs
+    [] f = "base1" -> AddrRegs
+    [] f = "index" -> {""} \cup AddrRegs
     [] f = "scale" -> (IF v[4] = "" THEN {1} ELSE IF Grid = "full" THEN {1, 2, 4, 8} ELSE {1, 8})
     [] f = "alias" -> AliasG
     [] f = "nonalias" -> AliasG
@@ -406,7 +408,6 @@ ChooseRet ==
 
 CurClass == cn.sig[Len(cn.ops) + 1]
 (* with OneFree only position cn.fp is free; the final return of a function always takes defaults then *)
-Default(D) == {CHOOSE x \in D : TRUE}
 Narrow(D) == IF OneFree /\ Len(cn.ops) + 1 # cn.fp THEN Default(D) ELSE D
 ChooseForm ==
   /\ InFunc /\ cn.op # "" /\ Len(cn.ops) < Len(cn.sig) /\ co.form = ""
@@ -464,6 +465,25 @@ Next ==
 Term == phase = "done" /\ UNCHANGED cvars          \* NextT: termination is not a deadlock (used to look for stuck builders)
 NextT == Next \/ Term
 Spec == Init /\ [][Next]_cvars
+
+(* ------------------------------------------------------------------ big modules (C11: several compression buffers) *)
+(* one data item of n elements, chosen through the environment: C11_BIGN<i> (elements), C11_BIGP<i> (pattern: *)
+(* "low" = values below 128 (one byte per token), "rand" = incompressible, "rep" = period 7), C11_BIGT<i> (u8 | i64 | ld) *)
+EnvOr(k, d) == IF k \in DOMAIN IOEnv THEN IOEnv[k] ELSE d
+BigIdx == {i \in 1..8 : ("C11_BIGN" \o ToString(i)) \in DOMAIN IOEnv}
+BigVal(pat, i) == CASE pat = "low" -> (i * 7) % 128 [] pat = "rep" -> 200 + (i % 7) [] OTHER -> ((((i % 4093) * (i % 4099)) % 65521) * 31 + ((i % 65536) * 17)) % 256
+BigEl(t, pat, i) ==
+  CASE t = "u8" -> <<BigVal(pat, i)>>
+    [] t = "i64" -> <<BigVal(pat, i), 65535, 65535, 32768 + BigVal(pat, i + 1)>>            \* negative: 8-byte tokens
+    [] t = "ld" -> <<BigVal(pat, i), BigVal(pat, i + 1), 0, 32768 + BigVal(pat, i + 2), 16383>>
+BigModule(j) ==
+  LET n == atoi(IOEnv["C11_BIGN" \o ToString(j)])  pat == EnvOr("C11_BIGP" \o ToString(j), "rand")  t == EnvOr("C11_BIGT" \o ToString(j), "u8") IN
+  <<[name |-> "big", items |-> <<[k |-> "import", name |-> "a"],
+                                 [k |-> "data", name |-> "b1", t |-> t, via |-> "data", els |-> [i \in 1..n |-> BigEl(t, pat, i)]],
+                                 [k |-> "bss", name |-> "", len |-> W(8)]>>]>>
+BigInit == /\ \E j \in BigIdx : mods = BigModule(j)
+           /\ items = <<>> /\ ci = NoCur /\ fn = NoFn /\ cn = NoInsn /\ co = NoOp /\ owed = <<>> /\ phase = "big"
+BigNext == phase = "big" /\ phase' = "done" /\ UNCHANGED <<mods, items, ci, fn, cn, co, owed>>
 
 (* ------------------------------------------------------------------ normal form of the text format *)
 (* MIR text has a single integer literal ("represented the same way as C integer numbers"): an unsigned immediate *)
